@@ -170,6 +170,28 @@ def run(c):
                     elif have_model and model != ob:
                         c.fail("corr", "model match_pat_x differs from Pattern.MatchIdentical",
                                input=dict(ctx, pattern=p, tree=o["trees"][i], type=t), observed=ob == "1", expected=model == "1")
+            # ---- engine level: the same patterns through Where(Type.Is / Type.Underlying().Is) and a list capture
+            eo = o.get("engine")
+            if eo is not None:
+                if eo.get("load_err"):
+                    c.fail("oracle", "a rules file with Type.Is patterns of the generator's grammar does not load",
+                           input=dict(ctx, patterns=eo.get("pats")), observed=eo["load_err"], expected="loads")
+                if eo.get("panic"):
+                    c.fail("oracle", "Run fails on the Type.Is probe file", input=ctx, observed=eo["panic"], expected="reports")
+                kinds_ = {"is": "Type.Is", "uis": "Type.Underlying().Is", "ls": "Type.Is on a $*xs capture (every element must match)"}
+                for key, exp in sorted((eo.get("oracle") or {}).items()):
+                    got = (eo.get("obs") or {}).get(key) or []
+                    exp = exp or []
+                    kind = re.match(r"[a-z]+", key).group(0)
+                    pat = eo["pats"][int(key[len(kind):])]
+                    c.evaluations += 1
+                    if exp and exp != [""]:
+                        c.nontrivial.add((mode, "engine", kind, pat))
+                    if got != exp:
+                        c.fail("oracle", "%s filter outcome contradicts the assignment search" % kinds_[kind],
+                               input=dict(ctx, pattern=pat, filter=kinds_[kind], probes="harness/cmd/c10 engine section"),
+                               expected=exp[:20], observed=got[:20])
+                c.coverage["engine_rules"] = len(eo.get("oracle") or {})
             if have_model:
                 c.coverage["model_vs_impl_cases"] = c.coverage.get("model_vs_impl_cases", 0) + len(pats) * len(tys)
             c.coverage["patterns"] = len(pats)
